@@ -693,3 +693,47 @@ Section NoCrashAtAll.
     - exfalso. eapply plan_stage_never_crashes; eauto.
   Qed.
 End NoCrashAtAll.
+
+(* ------------------------------------------------------------------ fix 2eb33d4: the asymmetric and signing paths *)
+Section NoCrashAny.
+  Variable E : Z -> bytes -> Z -> option bytes -> option bytes -> bytes -> bytes * bytes.
+  Variable Dp : Z -> bytes -> Z -> option bytes -> option bytes -> option bytes -> bytes -> option bytes.
+  Variable urandom : Z -> bytes.
+  Variable RE RD : bytes -> asym_pad -> bytes -> option bytes.
+  Variable RS : sig_plan -> bytes -> option bytes.
+
+  Lemma crypt_plan_sym dec p sp :
+    crypt_plan_of dec p = Ok (CSym sp) ->
+    exists a, sym_plan_of dec a (e_key p) (e_mode p) (e_pad p) (e_iv p) (e_aad p) (e_taglen p) (e_tag p) = Ok sp.
+  Proof.
+    unfold crypt_plan_of. intros H.
+    destruct (e_alg p) as [a|]; try discriminate.
+    destruct (a =? CA_RSA).
+    - destruct (asym_pad_of _ _); try discriminate. destruct (e_key_loads p); discriminate.
+    - destruct (sym_plan_of dec a _ _ _ _ _ _ _) as [e|sp0] eqn:Hs; try discriminate.
+      apply Ok_inj in H. injection H as <-. eauto.
+  Qed.
+
+  Lemma do_encrypt_any_never_crashes p msg : do_encrypt_any E urandom RE p msg <> RCrash.
+  Proof.
+    unfold do_encrypt_any. destruct (encrypt_plan p) as [e|[sp|key ap]] eqn:Hp; try discriminate.
+    - destruct (crypt_plan_sym _ _ _ Hp) as [a Hs]. unfold run_sym_encrypt.
+      destruct (lib_sym_stage false sp (zlen msg)) eqn:Hl; try discriminate.
+      exfalso. eapply plan_stage_never_crashes; eauto.
+    - destruct (RE key ap msg); discriminate.
+  Qed.
+
+  Lemma do_decrypt_any_never_crashes p ct : do_decrypt_any Dp urandom RD p ct <> RCrash.
+  Proof.
+    unfold do_decrypt_any. destruct (decrypt_plan p) as [e|[sp|key ap]] eqn:Hp; try discriminate.
+    - destruct (crypt_plan_sym _ _ _ Hp) as [a Hs]. unfold run_sym_decrypt.
+      destruct (lib_sym_stage true sp (zlen ct)) eqn:Hl; try discriminate.
+      + destruct (Dp _ _ _ _ _ _ _); try discriminate.
+        destruct (p_pad sp); try discriminate. destruct (unpad _ _ _); discriminate.
+      + exfalso. eapply plan_stage_never_crashes; eauto.
+    - destruct (RD key ap ct); discriminate.
+  Qed.
+
+  Lemma do_sign_never_crashes p msg : do_sign RS p msg <> RCrash.
+  Proof. unfold do_sign. destruct (sign_plan p); try discriminate. destruct (RS a msg); discriminate. Qed.
+End NoCrashAny.
